@@ -616,6 +616,14 @@ func (m *Manager) NewScopedKeyManager(ns walletdb.ReadWriteBucket,
 		if err != nil {
 			return nil, err
 		}
+
+		// The default account created above is the last account of
+		// the new scope. Without recording it, the first NewAccount
+		// would hand out the default account's number again.
+		err = putLastAccount(ns, &scope, DefaultAccountNum)
+		if err != nil {
+			return nil, err
+		}
 	}
 
 	// Finally, we'll register this new scoped manager with the root
